@@ -10,6 +10,7 @@ import OpenHTF.Driver.C08
 import OpenHTF.Driver.C09
 import OpenHTF.Driver.C06
 import OpenHTF.Driver.C10
+import OpenHTF.Driver.C17
 open OpenHTF.Driver
 
 def stripNl (s : String) : String :=
@@ -29,6 +30,7 @@ def dispatch (line : String) : String :=
   | "C09" :: ts => C09.handle ts
   | "C06" :: ts => C06.handle ts
   | "C10" :: ts => C10.handle ts
+  | "C17" :: ts => C17.handle ts
   | "C03" :: ts => C02.handleC03 ts
   | _ => reply false false "unknown-property"
 
